@@ -421,8 +421,9 @@ def disambiguate_matching(rain_intervals, jump_intervals):
         for (rain_start, _), (jump_start, _) in zip(rain_intervals, jump_intervals)
     ]
     duration_differences = {
+        # A jump slice over n + 1 head values spans n time steps
         (rain_start, jump_start): float(
-            (rain_stop - rain_start) - (jump_stop - jump_start)
+            (rain_stop - rain_start) - (jump_stop - jump_start - 1)
         )
         for (rain_start, rain_stop), (jump_start, jump_stop) in zip(
             rain_intervals, jump_intervals
